@@ -72,7 +72,7 @@ structure Heap where
   cls : ExcId → Cls
   tb : ExcId → Tb
   cause : ExcId → Option ExcId
-  next : ExcId                 -- ids from `next` on are unallocated
+  next : Nat                   -- ids from `next` on are unallocated
 
 def Heap.setTb (h : Heap) (e : ExcId) (t : Tb) : Heap :=
   { h with tb := fun i => if i = e then t else h.tb i }
@@ -106,6 +106,12 @@ def St.through (s : St) (e : ExcId) (f : Frame) : St := { s with heap := s.heap.
 
 /-- `sys.exc_info()[1]` -/
 def St.active (s : St) : Option ExcId := s.excInfo.head?
+
+/-- `sys.exc_info()[2]`: the traceback of the exception being handled -/
+def St.activeTb (s : St) : Tb :=
+  match s.active with
+  | some a => s.heap.tb a
+  | none => []
 
 /-- a new exception of class `c` is raised in frame `f` -/
 def St.raiseFresh (s : St) (c : Cls) (cause : Option ExcId) (f : Frame) : St × ExcId :=
@@ -228,9 +234,7 @@ def filterExit (fl : Filter) (s : St) : Compl → St × Compl
 /-- `exception_filter.__call__(ex)` (338-361) called from frame `scen` -/
 def filterCall (fl : Filter) (e : ExcId) (s : St) : St × Compl :=
   let excVal := s.active                                             -- 344
-  let traceback : Tb := match excVal with
-    | some a => s.heap.tb a
-    | none => []
+  let traceback : Tb := s.activeTb
   match callPred fl e s with                                         -- 347
   | (s1, .raises x) => ((s1.through x .filtCall).through x .scen, .raised x)
   | (s1, .accept) => (s1, .ok)
@@ -269,6 +273,11 @@ def cmExit (value : ExcId) (tbAtWith : Tb) (x : ExcId) (s : St) : St × Compl :=
   if x = value then ({ s1 with heap := s1.heap.setTb value tbAtWith }, .raised value)
   else (s1.through x .scen, .raised x)
 
+/-- an exception raised by `remove(path)` passes through the generator frame -/
+def removeOut (s : St) : Compl → St
+  | .raised x => s.through x .rpoeGen
+  | .ok => s
+
 /-- what `with remove_path_on_error(path, remove)` does with an exception `e` leaving its body
     (fileutils.py:76-80) -/
 def rpoeExit (rm : RemoveFn) (e : ExcId) (s : St) : St × Compl :=
@@ -277,13 +286,10 @@ def rpoeExit (rm : RemoveFn) (e : ExcId) (s : St) : St × Compl :=
   if (s1.heap.cls e).isExc then                      -- `except Exception:`
     let s2 := { s1 with excInfo := e :: s1.excInfo }
     let ci := enter (Sre.init true) s2               -- `with excutils.save_and_reraise_exception():`
-    let (s3, ro) := callRemove rm s2
-    let s3' := match ro with
-      | .raised x => s3.through x .rpoeGen
-      | .ok => s3
-    let (s4, out) := exitSre .rpoeGen ci s3' ro
-    let s5 := { s4 with excInfo := s1.excInfo }      -- leaving the `except` block
-    match out with
+    let cr := callRemove rm s2                       --     `remove(path)`
+    let ex := exitSre .rpoeGen ci (removeOut cr.1 cr.2) cr.2
+    let s5 := { ex.1 with excInfo := s1.excInfo }    -- leaving the `except` block
+    match ex.2 with
     | .raised x => cmExit e tbAtWith x s5
     | .ok => (s5, .ok)                               -- generator returned: StopIteration, suppressed
   else cmExit e tbAtWith e s1
